@@ -342,13 +342,15 @@ func init() {
 			bfs("lsm", 4, 40, prm("oracle", "c29", "mode", "normal", "keyset", "drop", "keys", 4, "drops", true, "snapshots", false, "l0_tables", 1, "inmemory", true, "nofiles", true, "ops", "Sp1a Sp2a Sq Dp1a F C0 Yp1 Yp Yp1,q Yzz V"))},
 		[]Stage{bfs("lsm", 6, 600, prm("oracle", "c12", "keys", 2, "inmemory", true, "nofiles", true)), bfs("lsm", 6, 600, prm("oracle", "c12", "mode", "normal", "keys", 2, "inmemory", true, "nofiles", true, "ops", "Sa Sb Da Db F C0 C1 O X A")),
 			bfs("lsm", 5, 600, prm("oracle", "c29", "mode", "normal", "keyset", "drop", "keys", 4, "drops", true, "snapshots", false, "l0_tables", 1, "inmemory", true, "nofiles", true, "ops", "Sp1a Sp1b Sp2a Sq Dp1a F C0 C1 Yp1 Yp Yp1,q Yp1,p2 Yzz V"))})
-	planTable["C33"] = lsmPlan("Normal-mode histories mixing expiring (TTL 5 s), non-expiring and deleted versions with flushes, compactions, value-log GC and virtual-clock advances (11 s): after every transition Get and forward/reverse iteration show an entry iff now < expiresAt (and, for every history of up to 3 (quick) / 5 (thorough) steps over {TTL set, set, delete, clock advance, flush, compaction}, so do a Stream run and a Backup + Load into a fresh database); an expired newest version hides older ones; a newer plain write is visible.",
+	planTable["C33"] = lsmPlan("Normal-mode histories mixing expiring (TTL 5 s), non-expiring and deleted versions with flushes, compactions, value-log GC and virtual-clock advances (11 s): after every transition Get and forward/reverse iteration show an entry iff now < expiresAt (and, for every history of up to 3 (quick) / 5 (thorough) steps over {TTL set, set, delete, clock advance, flush, compaction}, so do a Stream run and a Backup + Load into a fresh database); an expired newest version hides older ones; a newer plain write is visible. Crash images of short histories with TTL entries (inline and value-log values): after recovery every entry still carries its user meta, and two virtual hours later every TTL entry is invisible while the rest of the commit prefix is unchanged.",
 		stateRule,
 		[]Stage{bfs("lsm", 5, 70, prm("oracle", "c12", "mode", "normal", "keys", 1, "ttl", true, "l0_tables", 1, "ops", "Sa La Da F C0 A O X")), en("c33stream", 16, 60, prm("len", 3)),
 			// a value-log value with a TTL whose file is rewritten by the GC while it is still live, then the clock passes the expiry
 			bfs("lsm", 3, 40, prm("oracle", "c12", "mode", "normal", "keys", 2, "ttl", true, "big", true, "gc", true, "vlog_max_entries", 1, "l0_tables", 1, "snapshots", false, "ops", "Qa Bb F C0 G A"), seq("Qa Bb F"), seq("Qa Bb F C0")),
 			// three populated levels: an expired newest version compacted into the level above the one that holds the older version
-			bfs("lsm", 4, 40, prm("oracle", "c12", "mode", "normal", "keys", 2, "ttl", true, "big", true, "value_threshold", 1024, "big_size", 400, "l0_tables", 1, "ops", "La Sa F A C0 C1 O X"), seq("Ba Bb F C0"), seq("Ba Bb F C0 La F O X"))},
+			bfs("lsm", 4, 40, prm("oracle", "c12", "mode", "normal", "keys", 2, "ttl", true, "big", true, "value_threshold", 1024, "big_size", 400, "l0_tables", 1, "ops", "La Sa F A C0 C1 O X"), seq("Ba Bb F C0"), seq("Ba Bb F C0 La F O X")),
+			// crash images: the expiry (and user meta) of entries recovered from the WAL / value log must survive; two virtual hours later they are gone
+			en("crash08", 16, 40, prm("oracle", "c33", "len", 3, "alphabet", "TX T2 TD F C"))},
 		[]Stage{bfs("lsm", 7, 900, prm("oracle", "c12", "mode", "normal", "keys", 2, "ttl", true, "l0_tables", 1, "ops", "Sa La Sb Da F C0 C1 A O X")), bfs("lsm", 5, 600, prm("oracle", "c12", "mode", "normal", "keys", 1, "ttl", true, "big", true, "gc", true, "vlog_max_entries", 1, "l0_tables", 1, "ops", "Ba La Qa Da F C0 G A")), en("c33stream", 16, 600, prm("len", 5)),
 			bfs("lsm", 5, 600, prm("oracle", "c12", "mode", "normal", "keys", 2, "ttl", true, "big", true, "gc", true, "vlog_max_entries", 1, "l0_tables", 1, "snapshots", false, "ops", "Qa Bb Da F C0 G A"), seq("Qa Bb F"), seq("Qa Bb F C0"))})
 
